@@ -9,6 +9,8 @@ def pick(p, ids, hdir=None):
             v = dict(u); v["id"] = p.lower() + "_" + u["id"]
             if not v["harness"].startswith("../"):
                 v["harness"] = "../%s/%s" % (hdir or p, v["harness"])
+            if p == "C07": v["defines"] = list(v.get("defines", [])) + ["KF_EXCLUDE_C07_ZERO_SIZE_LEFTOVER"]   # regions of the C07/C08 known findings: decided (and reported) under C07/C08 only
+            if p == "C08": v["defines"] = list(v.get("defines", [])) + ["KF_EXCLUDE_C08_OPEN_SMALLER_SIZE"]
             out.append(v)
     return out
 LEVEL = "model_checking"
@@ -27,14 +29,15 @@ UNITS = [
          defines=["ROBUST_AFTER_SECTION", "ALLOC_STRICT", "INI_LINES=2", "INI_LINE_MAX=4"], cbmc_flags=["--unwind", "16", "--unwinding-assertions", "--object-bits", "10"],
          functions=["p_ini_file_parse", "pp_ini_file_parameter_new", "pp_ini_file_section_new"], bound="'[s]' followed by one line of <= 4 arbitrary bytes",
          replay={"driver": "C18_replay.c", "mode": "ini", "args": []}),
+    U("library_loader", "h_loader", "../C20/loader.c", ["plibraryloader-posix.c"], canaries=2, timeout=300, functions=["p_library_loader_new", "p_library_loader_free"], cbmc_flags=[]),
 ] + pick("C01", ["mutex_new_free"]) + pick("C02", ["posix_new_free"]) + pick("C03", ["cond_new_free"]) + pick("C05", ["current", "get_tls_key", "local_new_free", "create_full"]) + \
     pick("C06", ["new", "platform_key"]) + pick("C07", ["new"]) + pick("C08", ["new_free_own"]) + pick("C10", ["new", "accept"], "sock") + pick("C11", ["dispatch"]) + \
     pick("C12", ["bst_insert", "rb_insert", "avl_insert"], "trees") + pick("C15", ["insert", "list_append_prepend"]) + pick("C17", ["new_from_native", "new_any", "new_text"])
 REQUIRE_CONFIGURED = ["pmem.c", "pdir-posix.c"]
 TECHNIQUE = "CBMC obligations on the real entry points with an allocator that fails nondeterministically at EVERY allocation (covers 'the k-th fails' and 'k-th and all later fail' for all k at once): pointer checks, failure value, allocation balance; container walkers bounded"
-LEVEL_TEXT = ("pmem.c itself over a user allocator table that may fail (this justifies the allocator model used elsewhere); then per allocating entry point -- directory objects, errors, rwlock (general), "
+LEVEL_TEXT = ("pmem.c itself over a user allocator table that may fail (this justifies the allocator model used elsewhere); then per allocating entry point -- directory objects, errors, rwlock (general), library loader, "
               "INI parse, mutex/cond/rwlock/TLS/thread constructors, semaphore, shared memory (+ its semaphore), shm buffer, sockets (new/accept), hash dispatcher, tree insert (3 variants), hash table and list "
               "insert, socket addresses -- with every allocation allowed to fail: no invalid pointer use (CBMC pointer checks), the documented failure value, nothing allocated during the call stays "
               "allocated once the returned objects are freed, pre-existing objects intact (map/list views unchanged on failure). Loop-free constructors are unbounded; walkers are bounded (see bounds).")
-LEVEL_NOTE = ("Not every public entry point that allocates is covered (p_file/p_process/p_library_loader/time profiler/p_strtok and the getters of pinifile are not); the list above is what is. "
-              "Trusted: env models of the OS calls each unit uses. Bounded units inherit their bounds (trees H<=3, lists/tables L<=4, INI one 4-byte line).")
+LEVEL_NOTE = ("Not every public entry point that allocates is covered (p_file/p_process/time profiler/p_strtok and the getters of pinifile are not); the list above is what is. "
+              "Trusted: env models of the OS calls each unit uses. Bounded units inherit their bounds (trees H<=3, lists/tables L<=4, INI one 4-byte line). The input regions of the known findings of C07 (existing segment of size 0) and C08 (existing buffer opened with a smaller size) are excluded from the shared units here; they are decided and reported under C07/C08.")
